@@ -16,8 +16,9 @@
 
     Generic in the number type, like EDSpec; the bounds are proved at Coquelicot's complex numbers in
     TruncBoundsProofs.v. *)
-Require Import Bool List Arith ZArith.
-From PV Require Import Outcome Fock Poly EDSpec.
+Require Import Bool List Arith ZArith Reals.
+From Coquelicot Require Import Complex.
+From PV Require Import Outcome Fock Poly EDSpec ThermalSpec.
 Import ListNotations.
 
 Section Masked.
@@ -100,3 +101,7 @@ Definition trunc_keep4 (drop : nat -> bool) (pres : list nat -> nat -> nat -> na
 (** Susceptibility::prepare skips a part iff both blocks are discarded *)
 Definition trunc_keep2 (drop : nat -> bool) (pres : nat -> nat -> bool) (n m : nat) : bool :=
   pres n m && negb (drop n && drop m).
+
+(** * Matrices over C as lists of rows: shape and squared Frobenius norm (hypotheses of the bounds) *)
+Definition sq (n : nat) (O : list (list C)) : Prop := length O = n /\ forall row, In row O -> length row = n.
+Definition frob2 (O : list (list C)) : R := lsum (fun row => lsum (fun x => (Cmod x * Cmod x)%R) row) O.
